@@ -659,7 +659,9 @@ impl<W: Write + io::Seek> ZipWriter<W> {
         let data_start = file.data_start.get_mut();
 
         if !self.writing_to_central_extra_field_only {
-            let writer = self.inner.get_plain();
+            let writer = self.inner.get_header_writer().ok_or_else(|| {
+                io::Error::new(io::ErrorKind::Other, "Extra data cannot be ended now")
+            })?;
 
             // Append extra data to local file header and keep it for central file header.
             writer.write_all(&file.extra_field)?;
@@ -1074,6 +1076,17 @@ impl<W: Write + io::Seek> GenericZipWriter<W> {
         match *self {
             GenericZipWriter::Storer(MaybeEncrypted::Unencrypted(ref mut w)) => w,
             _ => panic!("Should have switched to stored and unencrypted beforehand"),
+        }
+    }
+
+    /// The sink itself while the local header of the current entry is still being completed.
+    /// An encrypting writer buffers the entry's body until the entry is finished, so the sink
+    /// still stands at the end of the header.
+    fn get_header_writer(&mut self) -> Option<&mut W> {
+        match *self {
+            GenericZipWriter::Storer(MaybeEncrypted::Unencrypted(ref mut w)) => Some(w),
+            GenericZipWriter::Storer(MaybeEncrypted::Encrypted(ref mut w)) => Some(&mut w.writer),
+            _ => None,
         }
     }
 
